@@ -192,6 +192,18 @@ func isZeroTest(info *types.Info, e ast.Expr) (bool, string) {
 				return true, ""
 			}
 			return false, "comparison with a non-zero constant"
+		case token.LSS, token.LEQ:
+			// len(x) < 1, len(x) <= 0: a length is never negative
+			if call, ok := ast.Unparen(x.X).(*ast.CallExpr); ok {
+				if id, ok := call.Fun.(*ast.Ident); ok && id.Name == "len" {
+					if v := constOf(info, x.Y); v != nil && v.Kind() == constant.Int {
+						if n, ok := constant.Int64Val(v); ok && ((x.Op == token.LSS && n == 1) || (x.Op == token.LEQ && n == 0)) {
+							return true, ""
+						}
+					}
+				}
+			}
+			return false, fmt.Sprintf("operator %s is not a zero test", x.Op)
 		default:
 			return false, fmt.Sprintf("operator %s is not a zero test", x.Op)
 		}
